@@ -6,6 +6,7 @@ package c10
 import (
 	"bytes"
 	"context"
+	"errors"
 	"fmt"
 	"sort"
 	"sync"
@@ -14,6 +15,7 @@ import (
 	"time"
 
 	"github.com/jamf/regatta/regattapb"
+	serrors "github.com/jamf/regatta/storage/errors"
 	"github.com/jamf/regatta/storage/table"
 	"github.com/jamf/regatta/storage/table/fsm"
 	"github.com/lni/dragonboat/v4"
@@ -240,6 +242,11 @@ func run(c Case, o *vt.Obs) *vt.Failure {
 			if err != nil {
 				if op.Busy && r.Linearizable {
 					continue // failing cleanly is fine
+				}
+				if len(r.RangeEnd) > 1024 && errors.Is(err, serrors.ErrKeyLengthExceeded) {
+					// the read API refuses bounds longer than a key may be (the delete API accepts them); refusing is not a C10 matter
+					o.Label("read-with-over-long-bound-refused")
+					continue
 				}
 				return vt.Failf(prop+"/read-error", i, "range: %v", err)
 			}
